@@ -92,6 +92,17 @@ def run_shard(cfg):
             viol("roundtrip-differs", "decode(encode(v)) != v: %s -> %s" % (short(v, 40), short(got[0], 40)), {"value": short(v, 80), "decoded": short(got[0], 80)})
         else:
             c.inc("roundtrips_equal")
+        # keyword arguments given to loadb() travel to specialised deserialize() methods and are nobody else's business: names
+        # an application might pick must not change how the built-in types are decoded
+        if i % 7 == 3:
+            try:
+                st_kw = BytesIO(b)
+                got_kw = S.deserialize_value(st_kw, kind="k", limit=1, length=0, size=0, n=0, depth=0, max_length=0, name="x", field="y", cls=None)
+                c.inc("decodes_with_foreign_kwargs")
+                if G.canon(got_kw) != want:
+                    viol("kwargs-change-decoding", "decoding %s with application keyword arguments gives another value" % short(v, 30), {"value": short(v, 60)})
+            except Exception as e:
+                viol("kwargs-change-decoding", "decoding %s with application keyword arguments (kind=, limit=, length= ...) raised %r" % (short(v, 30), e), {"value": short(v, 60)})
         # the application now owns the decoded value and changes it in place; nothing the decoder hands out later may be affected
         # (a shared empty list, a cached object ...): the following decodes are compared with their sources as always
         if i % 2 == 0:
@@ -165,6 +176,33 @@ def run_shard(cfg):
                     c.inc("limit_values_roundtrip")
             except Exception as e:
                 viol("limit-value-refused:%s" % name, "%s is inside the documented limits but raised %r" % (name, e), {"name": name})
+    # ---- the size limits are module settings read by the encoder and by the decoder: raised or lowered, both sides follow
+    if cfg["shard"] == 1:
+        old_limit = S.MAX_ARRAY_LENGTH
+        try:
+            for new_limit, n_items in ((2 ** 15, 20000), (100, 100), (100, 101)):
+                S.MAX_ARRAY_LENGTH = new_limit
+                for name, v in (("list", list(range(n_items))), ("dict", {k: None for k in range(n_items)}), ("set", set(range(n_items)))):
+                    c.inc("limit_settings_tried")
+                    try:
+                        b = encode(v)
+                    except Exception:
+                        if n_items <= new_limit:
+                            viol("limit-setting-not-followed", "MAX_ARRAY_LENGTH=%d: a %s of %d items is refused by the encoder" % (new_limit, name, n_items), {"limit": new_limit})
+                        continue
+                    if n_items > new_limit:
+                        viol("limit-setting-not-followed", "MAX_ARRAY_LENGTH=%d: a %s of %d items is encoded" % (new_limit, name, n_items), {"limit": new_limit})
+                        continue
+                    try:
+                        got, pos = decode_all(b)
+                        if G.canon(got[0]) != G.canon(v):
+                            viol("limit-setting-not-followed", "MAX_ARRAY_LENGTH=%d: %s of %d items does not round-trip" % (new_limit, name, n_items), {"limit": new_limit})
+                        else:
+                            c.inc("limit_settings_roundtrip")
+                    except Exception as e:
+                        viol("limit-setting-not-followed", "MAX_ARRAY_LENGTH=%d: the encoder accepts a %s of %d items, the decoder raises %r" % (new_limit, name, n_items, e), {"limit": new_limit})
+        finally:
+            S.MAX_ARRAY_LENGTH = old_limit
     # ---- long strings with multi-byte characters across power-of-two byte offsets (striped over the shards)
     for name, v in G.boundary_strings(r, cfg["shard"], 12):
         c.inc("boundary_strings")
@@ -211,7 +249,7 @@ def finish(tier, seed, results):
     inconclusive = []
     need(m["counters"], ["values", "encoded", "roundtrips_equal", "concatenations", "dumpb_loadb", "out_of_domain_refused", "limit_values_roundtrip",
                          "refused_inputs_interleaved", "decodes_after_refused_input_equal", "fields_none_with_non_none_default",
-                         "boundary_strings_roundtrip", "decoded_values_mutated_in_place", "dumpz_and_persisted_roundtrips"], inconclusive)
+                         "boundary_strings_roundtrip", "decoded_values_mutated_in_place", "dumpz_and_persisted_roundtrips", "decodes_with_foreign_kwargs", "limit_settings_roundtrip"], inconclusive)
     cov = {
         "evaluations": m["evaluations"],
         "distinct_nontrivial": m["distinct_nontrivial"],
